@@ -159,7 +159,9 @@ class Scipy(AbstractIntegrator):
         t = self.t0 + step_size
         y1 = copy.deepcopy(self.y0)
         for _ in range(max_steps):
-            y2 = integ.integrate(t)
+            # integ.integrate returns its internal buffer, which the next call
+            # overwrites in place: keep a copy, otherwise y1 and y2 alias each other
+            y2 = np.array(integ.integrate(t), dtype=float)
             diff = (y2 - y1) / y1 if rel_norm else y2 - y1
             if np.linalg.norm(diff, ord=2) < tolerance:
                 return Result(
